@@ -37,3 +37,9 @@ type design = { outputs : (string * vexp) list; next : (string * vexp) list;
                 wires : (string * vexp) list;
                 mem_writes : (string * (vexp * (vexp * vexp))) list; nx : 
                 nat }
+
+val evalp : env -> (string * vexp) -> string * coq_Z
+
+val evalw :
+  env -> (string * (vexp * (vexp * vexp))) ->
+  string * (coq_Z * (coq_Z * coq_Z))
